@@ -267,8 +267,9 @@ PROPS = {
                     [("GcpVerif.Proofs.ME2", "GcpVerif.ME.c14_repeat_holds"), ("GcpVerif.Proofs.ME2", "GcpVerif.ME.reach_stable"),
                      ("GcpVerif.Proofs.ME3", "GcpVerif.ME.reach_tinv"),
                      ("GcpVerif.Proofs.ME4", "GcpVerif.ME.c14_cancel_holds"), ("GcpVerif.Proofs.ME4", "GcpVerif.ME.c14_converged_holds"),
-                     ("GcpVerif.Proofs.ME4", "GcpVerif.ME.reach_V")],
-        "leanchecker": ["GcpVerif.Proofs.ME", "GcpVerif.Proofs.ME2", "GcpVerif.Proofs.ME3", "GcpVerif.Proofs.ME4"],
+                     ("GcpVerif.Proofs.ME4", "GcpVerif.ME.reach_V"),
+                     ("GcpVerif.Proofs.ME6", "GcpVerif.ME.recovery_not_cut_short"), ("GcpVerif.Proofs.ME6", "GcpVerif.ME.reach_sinv")],
+        "leanchecker": ["GcpVerif.Proofs.ME", "GcpVerif.Proofs.ME2", "GcpVerif.Proofs.ME3", "GcpVerif.Proofs.ME4", "GcpVerif.Proofs.ME6"],
         "trusted_base": ME_TB,
         "assumptions": ["0 <= RecoveryTimeout and 0 <= SwitchingDelay (negative durations are covered by the correspondence only)"],
     },
